@@ -377,6 +377,64 @@ pub fn run(tier: &str) -> i32 {
         }
         rep.sub("call-orders", "all 3^6 patterns of JJ and of 22, all 3^4 of AKs and all 2^12 of Q9o, alone and (Q9o: thorough only) inside the full range, each on a fresh object under all six orders of first calls of rank_pairs(), orphan_card_pairs() and to_string(), then asked again on the object and on a clone (every other sub-check uses one of the six orders per range, chosen by its contents)", n, n, true, json!({}));
     }
+    // overwritten in place: a range whose views were already asked for is the TARGET of clone_from (directly, and as an
+    // element of a Vec that is clone_from'd) with a source nobody has looked at yet; afterwards the target must split like
+    // its new contents
+    {
+        let rps = RP::all();
+        let mut n = 0u64;
+        let mut bad: Vec<(Contents, Value)> = vec![];
+        for (i, rp) in rps.iter().enumerate() {
+            let mut old = Contents::new();
+            for cb in rp.combos() {
+                old.insert(cb, wa);
+            }
+            let other = &rps[(i + 7) % rps.len()];
+            let mut newc = Contents::new();
+            for cb in other.combos() {
+                newc.insert(cb, wb);
+            }
+            newc.insert(rp.combos()[0], wc);
+            for route in 0..3u8 {
+                n += 1;
+                let (o2, n2) = (old.clone(), newc.clone());
+                let r = catch(move || {
+                    let mut target = range_of(&o2);
+                    let _ = (target.rank_pairs(), target.orphan_card_pairs(), target.to_string());
+                    let source = range_of(&n2);
+                    match route {
+                        0 => target.clone_from(&source),
+                        1 => {
+                            let mut v = vec![target];
+                            v.clone_from(&vec![source]);
+                            target = v.pop().unwrap();
+                        }
+                        _ => {
+                            let c = source.clone();
+                            target = c;
+                        }
+                    }
+                    let rps: BTreeMap<RP, u32> = target.rank_pairs().iter().map(|(k, w)| (rp_of(k), w.to_bits())).collect();
+                    let left: Contents = target.orphan_card_pairs().iter().map(|(cp, w)| (Combo::of(cp), w.to_bits())).collect();
+                    (rps, left, contents_of(&target))
+                });
+                let (erps, eleft) = split(&newc);
+                match r {
+                    Err(e) => bad.push((newc.clone(), json!({"panic": e}))),
+                    Ok((rps, left, cont)) => {
+                        let route_name = ["clone_from", "Vec::clone_from", "assignment of a clone"][route as usize];
+                        if cont != newc || rps != erps || left != eleft {
+                            bad.push((newc.clone(), json!({"problem": "after clone_from the target does not split like its new contents", "route": route_name, "reported_rank_pairs": rps.keys().map(|k| k.text()).collect::<Vec<_>>(), "expected_rank_pairs": erps.keys().map(|k| k.text()).collect::<Vec<_>>()})));
+                        }
+                    }
+                }
+            }
+        }
+        for (c, b) in bad.into_iter().take(4) {
+            rep.violation(Violation { key: format!("range={} written over an observed range by clone_from", contents_text(&c)), sub: "overwritten-in-place".into(), case: json!({"contents": c.iter().map(|(k, w)| json!([k.0, k.1, w])).collect::<Vec<_>>()}), expected: json!("M-split of the new contents"), observed: b });
+        }
+        rep.sub("overwritten-in-place", "for each of the 169 rank pairs: a range holding it, already observed through rank_pairs(), orphan_card_pairs() and to_string(), is overwritten by clone_from (directly, inside a Vec, by assignment of a clone) with an unobserved range holding another rank pair and one leftover: the views are those of the new contents", n, n, true, json!({}));
+    }
     // a few whole-range cases
     let mut extra = 0u64;
     for c in [Contents::new(), full.clone()] {
